@@ -139,6 +139,10 @@ func Const(x any) ast.Constant {
 		return ast.Time(TimeBase + Int(t[1])*TimeUnit)
 	case "d":
 		return ast.Duration(Int(t[1]) * TimeUnit)
+	case "tw": // wide timeline: index i is the instant i * 2^62 ns
+		return ast.Time(Int(t[1]) * (1 << 62))
+	case "dw":
+		return ast.Duration(Int(t[1]) * (1 << 62))
 	case "pair":
 		a, b := Const(t[1]), Const(t[2])
 		return ast.Pair(&a, &b)
